@@ -30,7 +30,10 @@ pub struct Case {
 
 pub const MAKE: [&str; 12] = ["make:client-credprops", "make:client-credprops-prf", "make:plain", "make:exclude-hit", "make:exclude-miss", "make:non-rk", "make:prf", "make:counter", "make:prf-uv-only-unverified", "make:bad-alg", "make:pin-auth", "make:uv-unconfigured"];
 pub const GET: [&str; 15] = ["get:two-listed-first-fails-late", "get:two-listed-first-fails-late-reversed", "get:counter-max", "get:counter-max-prf-no-secret", "get:client-prf", "get:allow", "get:no-list", "get:prf", "get:counterless", "get:prf-no-secret", "get:prf-uv-only-unverified", "get:pin-auth", "get:two-listed", "get:silent", "get:silent-prf"];
-pub const CODES: [u8; 6] = [0x00, 0x01, 0x28, 0x2E, 0x7F, 0xF0];
+/// status bytes a faulting store answers with: success-looking, CTAP1, store-full, no-credentials,
+/// "other", vendor – and every status the library raises itself (a caller that reacts to a status
+/// cannot tell who raised it)
+pub const CODES: [u8; 18] = [0x00, 0x01, 0x28, 0x2E, 0x7F, 0xF0, 0x2B, 0x27, 0x19, 0x26, 0x2C, 0x33, 0x30, 0x2F, 0x22, 0x14, 0x3C, 0x36];
 
 fn seeds() -> Vec<Passkey> {
     vec![
